@@ -51,7 +51,16 @@ def run(chk):
 def validation(chk):
     src = chk.src
     fn = src.func(TSC, 'tsc_parallel')
-    k = KernelS(src, TSC, 'tsc_parallel', CONTRACT, {}, {})
+    # plain module-level helpers made of if / return / assignment only (the default stripe count may be computed in one) are
+    # summarised over their return paths
+    helpers = {}
+    for f_ in src.tree(TSC).body:
+        if isinstance(f_, ast.FunctionDef) and not f_.decorator_list and f_.name != 'tsc_parallel':
+            simple = all(isinstance(n_, (ast.If, ast.Return, ast.Assign, ast.Expr, ast.expr, ast.expr_context, ast.operator, ast.cmpop, ast.boolop, ast.unaryop,
+                                         ast.arguments, ast.arg, ast.keyword, ast.FunctionDef)) for n_ in ast.walk(f_))
+            if simple and not any(isinstance(n_, ast.Expr) and not isinstance(n_.value, ast.Constant) for n_ in ast.walk(f_)):
+                helpers[f_.name] = f_
+    k = KernelS(src, TSC, 'tsc_parallel', CONTRACT, helpers, {})
     k.record_stores = True
     k.split_dnf = True
     k.max_paths = 8192
@@ -337,6 +346,8 @@ def plumbing(chk):
               node=(wraps[0] if wraps and not okw else (touched[0] if touched else fn)), nontrivial=False)
     # P6
     pp = src.func(TSC, 'partition_parallel')
+    from .c17 import resolve_key_pass
+    resolve_key_pass(pp)
     keyst = [n for n in walk_no_nested(pp) if isinstance(n, ast.Assign) and isinstance(n.targets[0], ast.Subscript)
              and isinstance(n.targets[0].value, ast.Name) and n.targets[0].value.id == 'keys']
     okkey = False
